@@ -553,7 +553,7 @@ Section Sound.
   Theorem gsafe_sound : forall p env vals,
       env_ok env self vals = true -> gsafe env p = true -> forall e, run re self vals p <> Bare e.
   Proof.
-    induction p as [n|tid x|c th IHt el IHe|c a b k IHk|a x h IHh k IHk|]; intros env vals H Hs e;
+    induction p as [n|tid x|c th IHt el IHe|c a b k IHk|a x h IHh k IHk|x h IHh body IHb|]; intros env vals H Hs e;
       cbn [gsafe] in Hs; (apply orb_true_iff in Hs as [Hb|Hs]; [exfalso; eapply bottom_absurd; eassumption|]);
       cbn [run].
     - destruct (nth_error (a_vars env) n) as [a|] eqn:Hn; [|discriminate Hs].
@@ -584,12 +584,15 @@ Section Sound.
         apply vars_ok_app; [exact Hvars|]. eapply aty_sound; [|exact Hv]. unfold env_ok. rewrite Hvars, Hattrs. reflexivity.
       + rewrite Hr. assert (Ex : exn_eqb x x = true) by (destruct x; try reflexivity; apply pystr_eqb_refl).
         rewrite Ex. eapply IHh; eassumption.
+    - apply andb_true_iff in Hs as [Hb Hh].
+      destruct (run re self vals body) as [v|tid y|e0] eqn:Hr; try discriminate.
+      exfalso. exact (IHb env vals H Hb e0 Hr).
     - discriminate Hs.
   Qed.
 
   Theorem run_sites : forall p vals tid x, run re self vals p = Named tid x -> In (tid, x) (sites p).
   Proof.
-    induction p as [n|tid0 x0|c th IHt el IHe|c a b k IHk|a x1 h IHh k IHk|]; intros vals tid x Hr; cbn [run sites] in *.
+    induction p as [n|tid0 x0|c th IHt el IHe|c a b k IHk|a x1 h IHh k IHk|x1 h IHh body IHb|]; intros vals tid x Hr; cbn [run sites] in *.
     - destruct (nth_error vals n); discriminate Hr.
     - inversion Hr; subst. left. reflexivity.
     - apply in_or_app. destruct (eval_cond re self vals c) as [[|]|]; [left; eapply IHt|right; eapply IHe|discriminate Hr];
@@ -598,6 +601,9 @@ Section Sound.
       destruct (eval_val self vals (if t then a else b)); [|discriminate Hr]. eapply IHk; eassumption.
     - apply in_or_app. destruct (eval_val self vals a) as [v|e0]; [right; eapply IHk; eassumption|].
       destruct (exn_eqb e0 x1); [left; eapply IHh; eassumption|discriminate Hr].
+    - apply in_or_app. destruct (run re self vals body) as [v|tid1 y|e0] eqn:Hb; [discriminate Hr| |].
+      + right. eapply IHb. rewrite Hb. exact Hr.
+      + destruct (exn_eqb e0 x1); [left; eapply IHh; eassumption|discriminate Hr].
     - discriminate Hr.
   Qed.
 End Sound.
